@@ -80,20 +80,36 @@ def geometry_violations(conf_rec):
                 if d < 0.5:
                     v.append({"clause": "h/distinct-positions", "detail": "two hydrogens on %r only %.3f A apart" % (
                         pk, d)})
-    # a hydrogen the program adds must not sit on top of a hydrogen it has read from the file (whatever the bond graph
-    # says about that one)
-    from_file = [a for a in atoms if a["elem"] == "H" and a["from_file"]]
-    if from_file:
-        for a in atoms:
-            if a["elem"] != "H" or a["from_file"]:
-                continue
-            for f in from_file:
-                if abs(a["xyz"][0] - f["xyz"][0]) < 500 and abs(a["xyz"][1] - f["xyz"][1]) < 500:
-                    d = sum((x - y) ** 2 for x, y in zip(a["xyz"], f["xyz"])) ** 0.5 / 1000.0
-                    if d < 0.5:
-                        v.append({"clause": "h/distinct-positions", "detail": "added hydrogen %s on %s%d only %.3f A from "
-                                  "hydrogen %s read from the file" % (a["name"], a["resname"], a["resnum"], d, f["name"])})
-                        break
+    # no hydrogen sits on top of another one, whatever the bond graph says (a hydrogen read from the file that was not
+    # attached to its atom and was then built again shows up here: same place, two atoms)
+    cells = {}
+    for a in atoms:
+        if a["elem"] == "H":
+            cells.setdefault(tuple(c // 500 for c in a["xyz"]), []).append(a)
+    done = False
+    for cell, hs in cells.items():
+        near = []
+        for dx in (-1, 0, 1):
+            for dy in (-1, 0, 1):
+                for dz in (-1, 0, 1):
+                    near += cells.get((cell[0] + dx, cell[1] + dy, cell[2] + dz), [])
+        for a in hs:
+            for b in near:
+                if a is b or (not a["from_file"] and not b["from_file"] and a["bonded"] == b["bonded"]):
+                    continue             # (siblings built by the program are judged above)
+                if a["from_file"] and b["from_file"] and a["xyz"] != b["xyz"]:
+                    continue             # two distinct hydrogens of the input: not the program's doing
+                d = sum((x - y) ** 2 for x, y in zip(a["xyz"], b["xyz"])) ** 0.5 / 1000.0
+                if d < 0.01:
+                    v.append({"clause": "h/distinct-positions", "detail": "hydrogens %s and %s on %s%d only %.3f A "
+                              "apart (bonded to %r / %r)" % (a["name"], b["name"], a["resname"], a["resnum"], d,
+                                                             a["bonded"], b["bonded"])})
+                    done = True
+                    break
+            if done:
+                break
+        if done:
+            break
     return v, per_parent
 
 
